@@ -1,4 +1,6 @@
 import XModel.Parse
+import XModel.ManagerC11
+import XModel.Acyclic
 /-!
 # C11 — printed expressions rebuild themselves
 `C11_roundtrip_partial`: the language of the theorem is refs with string / integer keys, integer
@@ -6,6 +8,11 @@ literals (negative ones parenthesised on the left, as the repaired `__repr__` pr
 binary and unary operator, and calls with positional arguments (which covers the builtin heads
 `round(x, n)`, `abs(x)`, `math.floor(x)`).  Keyword arguments, float / complex literal tokens and
 tuple keys are outside the theorem and covered by the correspondence run and the eval oracle only.
+
+`C11_load_dump_reacts_identically` is the second sentence of the property on the manager model (pairs already
+parsed — the textual half is the round trip above): the dump of a manager, loaded into a fresh manager over the same
+containers, gives the same definitions, and every later assignment to a plain location (C01's scope) ends with the
+same container contents and definitions on both managers, whatever legal schedules the two use.
 -/
 namespace Properties.C11
 open Parse
@@ -17,5 +24,47 @@ theorem C11_roundtrip_partial (e : Expr) (h : WFarg e) : Ev (fun n => parseExpr 
 /-- hence printing is injective: two expressions with the same text are the same expression -/
 theorem C11_print_injective (e₁ e₂ : Expr) (h₁ : WFarg e₁) (h₂ : WFarg e₂) (h : print e₁ = print e₂) : e₁ = e₂ :=
   print_injective e₁ e₂ h₁ h₂ h
+
+open Manager in
+/-- a dump loaded into a fresh manager over the same containers: same definitions, index invariant, and the new
+    manager reacts to every later assignment (to a plain location, in C01's scope) exactly like the original -/
+theorem C11_load_dump_reacts_identically (s : MState) (ow : Bool) (hi : MInv s) (hfz : s.frozen = false)
+    (hex : ExprDefs s.defs) (hc : Consistent s) :
+    ∃ s', load (freshOver s) ow (dump s) = (s', none) ∧ s'.defs = s.defs ∧ s'.store = s.store ∧ MInv s' ∧
+      ∀ (sched1 sched2 : Sched) (p : Manager.Path) (v : Store.Val), lookDef s.defs p = none → Scope s p →
+        ValidSched (gOf s.idx) (findTaskids s.idx (chainR p)) (sched1 (findTaskids s.idx (chainR p))) →
+        ValidSched (gOf s'.idx) (findTaskids s'.idx (chainR p)) (sched2 (findTaskids s'.idx (chainR p))) →
+        ∀ s1, setValue sched1 s p v = (s1, none) →
+          ∃ s2, setValue sched2 s' p v = (s2, none) ∧ s2.store = s1.store ∧ s2.defs = s1.defs :=
+  load_dump_reacts_identically s ow hi hfz hex hc
+
+open Manager in
+/-- the same for any re-derived index state of one task table (`refresh()`, `clone()`, a load in another order) -/
+theorem C11_same_definitions_same_behaviour (sched1 sched2 : Sched) (s : MState) (m : Index.Mgr Manager.Path Manager.Path)
+    (p : Manager.Path) (v : Store.Val) (hi : MInv s) (hi' : MInv { s with idx := m })
+    (hc : Consistent s) (hnodef : lookDef s.defs p = none) (sc : Scope s p)
+    (hvs1 : ValidSched (gOf s.idx) (findTaskids s.idx (chainR p)) (sched1 (findTaskids s.idx (chainR p))))
+    (hvs2 : ValidSched (gOf m) (findTaskids m (chainR p)) (sched2 (findTaskids m (chainR p))))
+    (s1 : MState) (hok : setValue sched1 s p v = (s1, none)) :
+    ∃ s2, setValue sched2 { s with idx := m } p v = (s2, none) ∧ s2.store = s1.store ∧ s2.defs = s1.defs :=
+  reindex_same_behaviour sched1 sched2 s m p v hi hi' hc hnodef sc hvs1 hvs2 s1 hok
+
+/-! non-vacuity: `c = a + b`, `e = c * a`; dump, load into a fresh manager, assign `a` on both -/
+section example_
+open Manager Store
+def da : Manager.Path := [.item (.str "d"), .item (.str "a")]
+def db : Manager.Path := [.item (.str "d"), .item (.str "b")]
+def dc : Manager.Path := [.item (.str "d"), .item (.str "c")]
+def de : Manager.Path := [.item (.str "d"), .item (.str "e")]
+def s0 : MState :=
+  { MState.init with store := .dict [(.str "d", .dict [(.str "a", .int 1), (.str "b", .int 2), (.str "c", .int 0), (.str "e", .int 0)])] }
+def sE : MState := applyAll id s0 [.setExpr de (.bin "Mul" (.ref dc) (.ref da)), .setExpr dc (.bin "Add" (.ref da) (.ref db))]
+def sL : MState := (load (freshOver sE) true (dump sE)).1
+example : (load (freshOver sE) true (dump sE)).2 = none ∧ sL.defs = sE.defs := ⟨rfl, rfl⟩
+example : scopeB sE da = true ∧ validSchedule sE.idx (chainR da) (findTaskids sE.idx (chainR da)) = true ∧
+    validSchedule sL.idx (chainR da) (findTaskids sL.idx (chainR da)) = true := by decide
+example : (setValue id sL da (.int 5)).1.store = (setValue id sE da (.int 5)).1.store ∧
+    get (setValue id sL da (.int 5)).1.store de = .ok (.int 35) := ⟨rfl, rfl⟩
+end example_
 
 end Properties.C11
